@@ -344,6 +344,15 @@ def check_print_fault(cfg, probes, faults):
 
 def check_printers(cfg, probes):
   """Printed paths: unique, complete, and each resolves to its leaf."""
+  # read-only tag queries first (they may leave an empty tag entry behind, which
+  # must not change what is printed)
+  for node, _ in fdl.daglish.iterate(cfg):
+    if isinstance(node, fdl.Buildable):
+      for name in list(node.__arguments__)[:2]:
+        try:
+          fdl.get_tags(node, name)
+        except Exception:  # pylint: disable=broad-except
+          pass
   d = printing.as_dict_flattened(cfg)
   n_leaves, _ = count_leaves(cfg)
   if len(d) != n_leaves:
